@@ -5,7 +5,7 @@ import numpy as np
 from hypothesis import strategies as st
 from . import gen, oracles
 
-Q_KINDS = ['none', 'identity', 'sparse_eye', 'dense', 'dense', 'prefix', 'sparse_prefix', 'linop', 'linop_eye', 'total', 'scaled']
+Q_KINDS = ['none', 'identity', 'sparse_eye', 'dense', 'dense', 'prefix', 'sparse_prefix', 'linop', 'linop_eye', 'total', 'scaled', 'sparse_perm']
 
 
 @st.composite
@@ -29,6 +29,11 @@ def build_Q(spec, n):
         return sparse.eye(n, format='csr'), np.eye(n)
     if k == 'scaled':
         D = spec['c'] * np.eye(n); return D.copy(), D
+    if k == 'sparse_perm':
+        # the cells in another order (or a subset of them): square-ish 0/1 matrix with one entry per row, csr or coo
+        rows = rng.permutation(n)[:max(1, n - (spec['rows'] % 2))]
+        D = np.zeros((len(rows), n)); D[np.arange(len(rows)), rows] = 1.0
+        return (sparse.csr_matrix(D) if spec['rows'] % 3 else sparse.coo_matrix(D)), D
     if k == 'dense':
         r = min(spec['rows'], n + 2)
         D = rng.standard_normal(size=(r, n)); return D.copy(), D
@@ -248,10 +253,11 @@ def est_cases(draw, min_attrs=2, max_attrs=4, max_size=4, cap=256, min_m=0, max_
     if case['elim'] == 'perm':
         case['elim_perm'] = list(draw(st.permutations(attrs)))
     if draw(st.integers(0, 7)) == 0 and case['total'] is not None:
-        # the same problem in other units: total, answers and noise scales multiplied by 1e5
-        case['total'] = float(case['total']) * 1e5
-        case['meas'] = [dict(m, noise=m['noise'] * 1e5) for m in case['meas']]
-        case['units'] = 1e5
+        # the same problem in other units: total, answers and noise scales multiplied by 1e5 (or, rarely, by 1e-8)
+        u = draw(st.sampled_from([1e5, 1e5, 1e5, 1e-8]))
+        case['total'] = float(case['total']) * u
+        case['meas'] = [dict(m, noise=m['noise'] * u) for m in case['meas']]
+        case['units'] = u
     if long_cycle and draw(st.integers(0, 5)) == 0:
         # long chordless cycle of pairwise measurements (needs second-order fill-in in the junction tree)
         n = draw(st.integers(5, 6))
